@@ -204,6 +204,15 @@ class SearchA(Problem):
             self.alphabet = [(p + c, producers.hunk_line_kind(p + c))
                              for c in contents for p in (b" ", b"-", b"+")]
             self.hh = None
+        elif variant == "diffu-ru":
+            # `diff -ru dirA dirB`: as "diffu", but every file starts with a `diff` line
+            self.np = 1
+            self.header = [b"diff -ru a/f.txt b/f.txt",
+                           b"--- a/f.txt\t2020-01-01 00:00:00.000000000 +0000",
+                           b"+++ b/f.txt\t2020-01-02 00:00:00.000000000 +0000"]
+            self.alphabet = [(p + c, producers.hunk_line_kind(p + c))
+                             for c in contents for p in (b" ", b"-", b"+")]
+            self.hh = None
         elif variant == "combined":
             self.np = 2
             self.header = [b"diff --cc f.txt", b"index 1111111,2222222..3333333",
@@ -334,7 +343,7 @@ class SearchA(Problem):
     def _hunk_headers(self, idx):
         if self.variant == "diffu-exact":
             return self._exact_successors(("hunk", 0, 0, None))
-        if self.variant == "diffu":
+        if self.variant in ("diffu", "diffu-ru"):
             # counts matter for plain diff -u (they drive the ambiguous '--- ' counter): offer
             # the maximal counts, under which every alphabet line is a hunk line
             return [(b"@@ -1,%d +1,%d @@" % (self.L, self.L), ("hunk", idx, 0, 0), "hunk-header")]
@@ -516,8 +525,9 @@ def run_task(task):
     """One (search spec, configuration) pair. Returns dict with stats and violations."""
     spec, label, ov, deadline = task
     opts, ocfg = split_opts(ov)
+    caller = ocfg.pop("caller", None)
     args = build_args(base_opts(opts))
-    drv = explore.get_driver()
+    drv = explore.get_driver(caller=caller)
     try:
         cid = drv.mkconfig(args)
     except explore.Rejected as e:
@@ -537,8 +547,10 @@ def run_task(task):
         v.args = args
         v.config_label = label
     d = stats.merge_dict()
+    for v in viols:
+        v.caller = caller
     d.update(label=label, spec=spec[:2] + (() if dedup else ("no-dedup",)), violations=viols, args=args,
-             caller=None)
+             caller=caller)
     return d
 
 
@@ -552,6 +564,7 @@ def plan(tier):
         deep = [("A", "unified", CONTENTS_FULL, 3, 1), ("A", "unified", CONTENTS_QUICK, 2, 2),
                 ("A", "combined", CONTENTS_QUICK[:3], 3, 1),
                 ("A", "diffu", CONTENTS_QUICK + [b"-- y"], 3, 1),
+                ("A", "diffu-ru", [b"x", b"-- y", b"++ y"], 3, 1),
                 ("A", "conflict", [b"x", b""], 2, 1),
                 ("A", "diffu-exact", [b"x", b"-- y"], 3, 2),
                 ("B", 2, ["modified", "mode", "rename_change"], None, "diffu")]
@@ -561,6 +574,7 @@ def plan(tier):
         deep = [("A", "unified", CONTENTS_FULL, 4, 1), ("A", "unified", CONTENTS_QUICK, 3, 2),
                 ("A", "combined", CONTENTS_QUICK, 3, 1),
                 ("A", "diffu", CONTENTS_FULL, 3, 1),
+                ("A", "diffu-ru", CONTENTS_FULL, 3, 1),
                 ("A", "conflict", [b"x", b"", b"\tt", b"\xc3\xa9\xe6\xbc\xa2"], 3, 1),
                 ("A", "diffu-exact", [b"x", b"-- y", b"++ y", b""], 4, 2),
                 ("B", 3, None, ["ctx", "minus", "minusplus"], "git"),
@@ -571,6 +585,14 @@ def plan(tier):
     for spec in deep:
         tasks.append((spec, "default", {}))
         tasks.append((spec, "line-numbers=on", {"line-numbers": True}))
+    # the process that produced the input (found by delta in the process table; here given through the H3 seam):
+    # git commands that do not ask for a word diff - among them options of which a word-diff option is a prefix
+    # or extension - must not change how hunk lines are read
+    for c in (["git", "diff", "--color=always"], ["git", "log", "-p", "--color", "--stat", "--word"],
+              ["git", "show", "--color-moved", "--relative=x"], ["git", "reflog", "-p", "--colour-words"]):
+        tasks.append((specs[0], "caller=" + " ".join(c), {"_caller": c}))
+        tasks.append((("B", 2, ["modified", "rename_change", "mode"], ["ctx", "minusplus"], "git"),
+                      "caller=" + " ".join(c), {"_caller": c}))
     # highlighting on (file name f.txt -> plain text syntax; and a Rust file name through search B is
     # not available, so the hunk contents are highlighted as plain text but through the real highlighter path)
     hl = {"syntax-theme": "Monokai Extended", "minus-style": "syntax 101", "plus-style": "syntax 104",
